@@ -944,3 +944,5 @@ def run(chk, facts, tier, only=None):
         chk.include(c17, "C17.R3", "C18.R6", facts)     # chase_actor / infer_rec (shared with the JavaScript generator) decide order and Box
         import c15
         chk.include(c15, "C15.R3", "C18.R7", facts)     # "as computed by the derive macro": the derive hashes rename / un-rawed identifier and sorts by it
+        import c19
+        chk.include(c19, "C19.R3", "C18.R8", facts)     # names placed inside string literals of the emitted Rust (method names of service types, renames) are escaped
